@@ -16,19 +16,19 @@ package util
 //@   ensures  compiled-here: result.1 == nil ==> (n_compile == old(n_compile) + 1 && result.0 == last_compiled)
 //@   modifies sb, lx, n_compile, last_compiled, last_compiled_src
 //@   loop over globs: invariant n_compile == old(n_compile)
-//@   loop 1: invariant n_compile == old(n_compile)
+//@   loop over for#1: invariant n_compile == old(n_compile)
 //@   loop over globs: invariant outer: lex_depth(lx[addr(pattern)]) == 1 && !lex_esc(lx[addr(pattern)]) && !lex_cls(lx[addr(pattern)]) && !lex_alt0(lx[addr(pattern)])
 //@   loop over globs: invariant starts: len(sb[addr(pattern)]) >= 1 && sb[addr(pattern)][0] == 94
-//@   loop 1: invariant inner: lex_depth(lx[addr(pattern)]) == 2 && !lex_esc(lx[addr(pattern)]) && !lex_cls(lx[addr(pattern)]) && !lex_alt0(lx[addr(pattern)])
-//@   loop 1: invariant no-brackets: forall k: int :: 0 <= k && k < len(g) ==> (g[k] != 91 && g[k] != 93)
-//@   loop 1: invariant starts: len(sb[addr(pattern)]) >= 1 && sb[addr(pattern)][0] == 94 && i >= 0
+//@   loop over for#1: invariant inner: lex_depth(lx[addr(pattern)]) == 2 && !lex_esc(lx[addr(pattern)]) && !lex_cls(lx[addr(pattern)]) && !lex_alt0(lx[addr(pattern)])
+//@   loop over for#1: invariant no-brackets: forall k: int :: 0 <= k && k < len(g) ==> (g[k] != 91 && g[k] != 93)
+//@   loop over for#1: invariant starts: len(sb[addr(pattern)]) >= 1 && sb[addr(pattern)][0] == 94 && i >= 0
 // Per-byte translation table (one step clause per case of the property statement). P = the builder's
 // content at the start of the iteration, n = its length.
-//@   loop 1: step star: when b == 42 && !(old(i) < len(g) - 1 && g[old(i) + 1] == 42) ensures i == old(i) + 1 && sb[addr(pattern)] == cat(old(sb[addr(pattern)]), "[^/]*")
-//@   loop 1: step starstar: when b == 42 && old(i) < len(g) - 1 && g[old(i) + 1] == 42 ensures i == old(i) + 2 && sb[addr(pattern)] == cat(old(sb[addr(pattern)]), ".*")
-//@   loop 1: step question: when b == 63 ensures i == old(i) + 1 && len(sb[addr(pattern)]) == len(old(sb[addr(pattern)])) + 1 && sb[addr(pattern)][len(old(sb[addr(pattern)]))] == 46
-//@   loop 1: step escape: when b == 92 ensures i == old(i) + 2 && len(sb[addr(pattern)]) == len(old(sb[addr(pattern)])) + 2 && sb[addr(pattern)][len(old(sb[addr(pattern)]))] == 92 && sb[addr(pattern)][len(old(sb[addr(pattern)])) + 1] == g[old(i) + 1] && (g[old(i) + 1] == 92 || g[old(i) + 1] == 42 || g[old(i) + 1] == 63)
-//@   loop 1: step meta: when b == 46 || b == 43 || b == 40 || b == 41 || b == 124 || b == 123 || b == 125 || b == 94 || b == 36 ensures i == old(i) + 1 && len(sb[addr(pattern)]) == len(old(sb[addr(pattern)])) + 2 && sb[addr(pattern)][len(old(sb[addr(pattern)]))] == 92 && sb[addr(pattern)][len(old(sb[addr(pattern)])) + 1] == b
-//@   loop 1: step literal: when b != 92 && b != 42 && b != 63 && b != 46 && b != 43 && b != 40 && b != 41 && b != 124 && b != 123 && b != 125 && b != 94 && b != 36 ensures i == old(i) + 1 && len(sb[addr(pattern)]) == len(old(sb[addr(pattern)])) + 1 && sb[addr(pattern)][len(old(sb[addr(pattern)]))] == b
-//@   loop 1: step lexer: when true ensures lx[addr(pattern)] == old(lx[addr(pattern)])
+//@   loop over for#1: step star: when b == 42 && !(old(i) < len(g) - 1 && g[old(i) + 1] == 42) ensures i == old(i) + 1 && sb[addr(pattern)] == cat(old(sb[addr(pattern)]), "[^/]*")
+//@   loop over for#1: step starstar: when b == 42 && old(i) < len(g) - 1 && g[old(i) + 1] == 42 ensures i == old(i) + 2 && sb[addr(pattern)] == cat(old(sb[addr(pattern)]), ".*")
+//@   loop over for#1: step question: when b == 63 ensures i == old(i) + 1 && len(sb[addr(pattern)]) == len(old(sb[addr(pattern)])) + 1 && sb[addr(pattern)][len(old(sb[addr(pattern)]))] == 46
+//@   loop over for#1: step escape: when b == 92 ensures i == old(i) + 2 && len(sb[addr(pattern)]) == len(old(sb[addr(pattern)])) + 2 && sb[addr(pattern)][len(old(sb[addr(pattern)]))] == 92 && sb[addr(pattern)][len(old(sb[addr(pattern)])) + 1] == g[old(i) + 1] && (g[old(i) + 1] == 92 || g[old(i) + 1] == 42 || g[old(i) + 1] == 63)
+//@   loop over for#1: step meta: when b == 46 || b == 43 || b == 40 || b == 41 || b == 124 || b == 123 || b == 125 || b == 94 || b == 36 ensures i == old(i) + 1 && len(sb[addr(pattern)]) == len(old(sb[addr(pattern)])) + 2 && sb[addr(pattern)][len(old(sb[addr(pattern)]))] == 92 && sb[addr(pattern)][len(old(sb[addr(pattern)])) + 1] == b
+//@   loop over for#1: step literal: when b != 92 && b != 42 && b != 63 && b != 46 && b != 43 && b != 40 && b != 41 && b != 124 && b != 123 && b != 125 && b != 94 && b != 36 ensures i == old(i) + 1 && len(sb[addr(pattern)]) == len(old(sb[addr(pattern)])) + 1 && sb[addr(pattern)][len(old(sb[addr(pattern)]))] == b
+//@   loop over for#1: step lexer: when true ensures lx[addr(pattern)] == old(lx[addr(pattern)])
 
